@@ -376,7 +376,42 @@ func (c16) Run(ctx *Ctx, ci interface{}) (o Outcome) {
 		o.Add("run_under_test_before_reference", 1)
 	}
 
-	// input-level clause: the ORF search (no schedule in it; rides along)
+	// input-level clause: the ORF search on sequences made of little else than start and stop codons, in all frames
+	// and on both strands (no schedule in it; rides along). Derived from the case's seed: part of the replay.
+	{
+		pr := NewRand(Mix(c.Seed, "orf-probes"))
+		bag := align.NewSeqBag(align.NUCLEOTIDS)
+		best := 0
+		for k := 0; k < 16; k++ {
+			var sb strings.Builder
+			if pr.Chance(0.5) {
+				sb.WriteString(randNt(pr, pr.Intn(3))) // frame shift
+			}
+			for m := pr.Range(1, 9); m > 0; m-- {
+				sb.WriteString(pr.PickS("ATG", "ATG", "TAA", "TAG", "TGA", "GCT", "GAA", "CAT", "TTA", "CTA", "TCA", "A", "CG"))
+			}
+			q := sb.String()
+			want := longestORFLen(q)
+			st, en := align.NewSequence("p", []uint8(q), "").LongestORF()
+			got := 0
+			if st >= 0 {
+				got = en - st
+			}
+			o.Add("orf_search_probes", 1)
+			if got != want || (st >= 0 && (en > len(q) || q[st:st+3] != "ATG")) {
+				o.Fail("orf-search:not-longest:Sequence.LongestORF", "LongestORF of %q returns (%d,%d): %d nt, the longest ATG...first in-frame stop has %d nt", q, st, en, got, want)
+				return
+			}
+			if k < 4 {
+				bag.AddSequence(fmt.Sprintf("p%d", k), q, "")
+				best = max(best, want, longestORFLen(revcompStr(q)))
+			}
+		}
+		if orf, err := bag.LongestORF(true); (err == nil && orf.Length() != best) || (err != nil && best > 0) {
+			o.Fail("orf-search:not-longest:SeqBag.LongestORF", "LongestORF(reverse) over 4 probe sequences returns %v / %v, the longest ORF on either strand has %d nt", seqStr(orf), err, best)
+			return
+		}
+	}
 	if !c.GiveRef && !faulty {
 		_, seqs, _, all := c.bags()
 		want := 0
